@@ -47,6 +47,11 @@ func runAtMostOnce(c *Ctx) {
 			cfgs = append(cfgs, amoCfg{lifetime: 150 * time.Millisecond, stallAt: 2, stall: st, goroutines: 3, calls: 6, multi: multi})
 		}
 	}
+	// the synchronous single-caller path (syncDo/syncDoMulti, background worker not started): one caller at a time, so
+	// every call is alone on the connection when the lifetime expires during a reply stalled beyond the close grace
+	for _, at := range []int{1, 2, 3} {
+		cfgs = append(cfgs, amoCfg{lifetime: 150 * time.Millisecond, stallAt: at, stall: 1400 * time.Millisecond, goroutines: 1, calls: 4})
+	}
 	// a batch that is only PARTLY on the wire (several flushes) when the lifetime expires and the server stalls after
 	// executing its first commands: what was executed must not be re-sent
 	for _, st := range []time.Duration{250 * time.Millisecond, 1400 * time.Millisecond} {
@@ -289,6 +294,9 @@ func amoEpisode(c *Ctx, n int, cfg amoCfg) {
 		c.Fail("amo:hang", fmt.Sprintf("%+v", cfg), "calls did not return within 40s")
 	}
 	client.Close()
+	if cfg.stall > 0 {
+		srv.WaitStalls() // the stalled command is executed when the server wakes up, even on a connection the client has left
+	}
 	desc := fmt.Sprintf("lifetime=%v stall=%v@%d fault=%s@%d multi=%v", cfg.lifetime, cfg.stall, cfg.stallAt, cfg.fault, cfg.faultAt, cfg.multi)
 	c.Hit("amo:" + strings.Fields(desc)[0] + ":" + fmt.Sprint(cfg.stall) + ":" + cfg.fault)
 	for _, r := range recs {
